@@ -10,7 +10,7 @@ LOG="$OUT/confirm.log"; : > "$LOG"
 git -C /repo worktree add -q --detach "$WT" HEAD || exit 2
 trap 'git -C /repo worktree remove --force "$WT" >/dev/null 2>&1' EXIT
 WRAPS=$(grep -h -o -- '-Wl,--wrap[^ `]*' "$D/README.md" | head -1)
-cp "$D"/*.c "$D"/*.h "$D"/*.inc "$WT"/ 2>/dev/null
+for f in "$D"/*; do case "$(basename "$f")" in README.md|patch.diff|*.log|*.out|*.txt) ;; *) [ -f "$f" ] && cp "$f" "$WT"/ ;; esac; done
 # SEED_ASAN=1: the demonstration observes the fault through AddressSanitizer: the libraries are (re)built with ASan for the two
 # demo runs only; the baseline test programs run on the plain build
 ASANF=""; [ -n "$SEED_ASAN" ] && ASANF="-fsanitize=address -fno-omit-frame-pointer"
@@ -29,7 +29,7 @@ for t in algorithmTest eccTest rsaTest hmacTest cryptoOpen; do
 done
 [ -n "$SEED_ASAN" ] && libs >> "$LOG" 2>&1
 build_demo; (cd "$WT" && timeout 600 ./demo_bin ${DEMO_ARGS//@WT@/$WT}) > "$OUT/demo.seeded.out" 2>&1; RC_SEED=$?
-cp "$D/patch.diff" "$OUT/"; cp "$D"/demo.c "$D"/*.h "$D"/*.inc "$D"/README.md "$OUT"/ 2>/dev/null
+cp "$D/patch.diff" "$OUT/"; for f in "$D"/*; do [ -f "$f" ] && [ $(stat -c %s "$f") -lt 400000 ] && case "$(basename "$f")" in demo|demo_*|*.log|*.out) ;; *) cp "$f" "$OUT"/ ;; esac; done
 python3 - "$P" "$N" "$NEEDS" "$RC_CLEAN" "$APPLY" "$RC_MAKE" "$TESTS" "$TFAIL" "$RC_SEED" "$WRAPS" <<'PY'
 import json, sys, subprocess
 p, n, needs, rcc, ap, rcm, tests, tf, rcs, wraps = sys.argv[1:11]
